@@ -111,8 +111,8 @@ long long c_combi(int n, int k)
     long long nk = (long long)n-(long long)k;
     int j=1;
 
-    /* Skip if number  is too high */
-    if(k>30 || nk>30){
+    /* Skip if number  is too high (or n is negative) */
+    if(n<0 || k>30 || nk>30){
         return -1;
     }
 
